@@ -332,4 +332,10 @@ def write_evidence(ctx: Ctx, violations: int, checker_cmd: str):
         "wall_s": round(time.time() - ctx.t0, 2),
         "violations": violations,
     }
-    (EVIDENCE_DIR / f"{ctx.pid}.json").write_text(json.dumps(ev, indent=1, default=repr))
+    out_dir = EVIDENCE_DIR
+    if REPO != Path("/repo"):
+        # a run against another tree (VERIF_REPO: a seeded change in a scratch worktree) is not evidence about /repo
+        out_dir = EVIDENCE_DIR / "other-tree"
+        out_dir.mkdir(exist_ok=True)
+        ev["repo"] = str(REPO)
+    (out_dir / f"{ctx.pid}.json").write_text(json.dumps(ev, indent=1, default=repr))
